@@ -1021,8 +1021,38 @@ func codeClass(code string) string {
 	return "lower-case-code"
 }
 
+// dangling reports whether some rendered string ends in a lone section sign: concatenated with
+// the next piece it could form a formatting code that belongs to no single string, so the rendered
+// text of such components is not judged (rendering must still not panic).
+func dangling(c *Comp) bool {
+	if strings.HasSuffix(c.Text, "§") {
+		return true
+	}
+	for _, a := range c.With {
+		if a.Str != nil && strings.HasSuffix(*a.Str, "§") {
+			return true
+		}
+		if a.Comp != nil && dangling(a.Comp) {
+			return true
+		}
+	}
+	for _, e := range c.Extra {
+		if dangling(e) {
+			return true
+		}
+	}
+	return false
+}
+
 func judgeRender(c *Comp, cs Case, m chat.Message) {
 	want, specified := plain(c)
+	if dangling(c) {
+		guard("render/ClearString", cs, func() { _ = m.ClearString() })
+		guard("render/String", cs, func() { _ = m.String() })
+		ev(2)
+		rep.Unspec(1)
+		return
+	}
 	var got string
 	if !guard("render/ClearString", cs, func() { got = m.ClearString() }) {
 		ev(1)
@@ -1210,13 +1240,13 @@ func compareType(prefix string, cs Case, back chat.Type) {
 // generator
 
 var (
-	texts      = []string{"", "a", `q"`, "§c", "§K", "100%", "%s", "§k"}
+	texts      = []string{"", "a", `q"`, "§c", "§K", "100%", "%s", "§k", "§", "a§"}
 	colors     = []string{"", "red", "#ff0000"}
 	fonts      = []string{"", "minecraft:uniform"}
 	insertions = []string{"", "ins"}
 	clicks     = []*Click{nil, {"open_url", "http://x"}, {"run_command", "/say \"hi\""}, {"suggest_command", "/tp "}, {"change_page", "2"}, {"copy_to_clipboard", "§c%s"}}
 	translates = []string{"", "k.two", "k.swap", "k.unknown"}
-	argStrings = []string{"s", "§c", "100%"}
+	argStrings = []string{"s", "§c", "100%", "x§"}
 )
 
 const maxDepth = 3
